@@ -67,6 +67,10 @@ type PartitionLog struct {
 	// under l.mu by prepareFlush, cleared under l.mu by uploadFlush on commit or
 	// on the upload-failure reset.
 	flushingBatches []RecordBatch
+	// publishMu serializes the onFlush callbacks, which run outside l.mu.
+	// lastPublished is the highest offset handed to onFlush so far.
+	publishMu     sync.Mutex
+	lastPublished int64
 }
 
 type segmentRange struct {
@@ -84,19 +88,20 @@ func NewPartitionLog(namespace string, topic string, partition int32, startOffse
 		namespace = "default"
 	}
 	pl := &PartitionLog{
-		namespace:    namespace,
-		topic:        topic,
-		partition:    partition,
-		s3:           s3Client,
-		cache:        cache,
-		cfg:          cfg,
-		buffer:       NewWriteBuffer(cfg.Buffer),
-		nextOffset:   startOffset,
-		onFlush:      onFlush,
-		onS3Op:       onS3Op,
-		segments:     make([]segmentRange, 0),
-		indexEntries: make(map[int64][]*IndexEntry),
-		s3sem:        sem,
+		namespace:     namespace,
+		topic:         topic,
+		partition:     partition,
+		s3:            s3Client,
+		cache:         cache,
+		cfg:           cfg,
+		buffer:        NewWriteBuffer(cfg.Buffer),
+		nextOffset:    startOffset,
+		lastPublished: startOffset - 1,
+		onFlush:       onFlush,
+		onS3Op:        onS3Op,
+		segments:      make([]segmentRange, 0),
+		indexEntries:  make(map[int64][]*IndexEntry),
+		s3sem:         sem,
 	}
 	pl.flushCond = sync.NewCond(&pl.mu)
 	return pl
@@ -264,9 +269,7 @@ func (l *PartitionLog) AppendBatch(ctx context.Context, batch RecordBatch) (*App
 		if err := l.uploadFlush(ctx, artifact); err != nil {
 			return nil, err
 		}
-		if l.onFlush != nil {
-			l.onFlush(ctx, artifact)
-		}
+		l.publish(ctx, artifact)
 	}
 	return result, nil
 }
@@ -325,18 +328,29 @@ func (l *PartitionLog) Flush(ctx context.Context) error {
 			return err
 		}
 	}
-	if l.onFlush != nil {
-		target := artifact
-		if target == nil {
-			if current >= 0 {
-				target = &SegmentArtifact{LastOffset: current}
-			}
-		}
-		if target != nil {
-			l.onFlush(ctx, target)
-		}
+	target := artifact
+	if target == nil && current >= 0 {
+		target = &SegmentArtifact{LastOffset: current}
 	}
+	l.publish(ctx, target)
 	return nil
+}
+
+// publish hands a flushed offset to onFlush. Two flushes reach this point
+// outside l.mu and possibly out of order: the callbacks are serialized, and one
+// carrying a lower offset than an earlier one is dropped, so that the offset
+// published through onFlush never goes down.
+func (l *PartitionLog) publish(ctx context.Context, target *SegmentArtifact) {
+	if l.onFlush == nil || target == nil {
+		return
+	}
+	l.publishMu.Lock()
+	defer l.publishMu.Unlock()
+	if target.LastOffset < l.lastPublished {
+		return
+	}
+	l.lastPublished = target.LastOffset
+	l.onFlush(ctx, target)
 }
 
 // prepareFlush drains the buffer and builds a segment artifact under l.mu.
